@@ -79,12 +79,16 @@ class OperationLogResponse(pydantic.BaseModel):
     description: str | None
 
     def restore_operation_log(self) -> OperationLog:
-        return OperationLog(
+        operation_log = OperationLog(
             command=self.command,
             playlogs=[log.restore_playlog() for log in self.logs],
             previous_hash=self.previous_hash,
             description=self.description,
         )
+        # The recorded hash identifies this log. Recomputing it from the restored playlogs depends on the byte form
+        # the response travelled in (key order of event payloads, 1000.0 vs 1000), which a JSON round trip may change.
+        operation_log._calculated_hash = self.hash  # pylint: disable=protected-access
+        return operation_log
 
     def contains_chekcpoint(self) -> bool:
         return (
